@@ -174,6 +174,58 @@ def chunk_class(length, chunk):
     return 'chunksize>=4*matchlength'
 
 
+# ------------------------------------------------------------------ trigger predicate for a lost pair
+def lost_pair_trigger(ra1, dec1, i, ra2j, dec2j, s, m, cc, max_cells=200000):
+    """Why could the code have lost the pair (list-1 point i, target)?  Evaluated on the re-derived cell layout of
+    list 1 (chunk size m); it only names the signature (cc = fallback label), it never decides whether the pair
+    is required."""
+    try:
+        g = chunk_geometry(ra1, dec1, m, max_cells=max_cells)
+        if 'error' in g or len(g['raBounds']) != g['nDec']:
+            return cc
+        db = g['decBounds']
+        nd = g['nDec']
+
+        def racell(sl, cur):
+            rb = g['raBounds'][sl]
+            return int(math.floor((cur - rb[0]) * g['nRa'][sl] / (rb[-1] - rb[0])))
+        cur1 = math.fmod(ra1[i] + g['raOffset'], 360.0)
+        cur2 = math.fmod(ra2j + g['raOffset'], 360.0)
+        k1 = int(math.floor((dec1[i] - db[0]) * nd / (db[-1] - db[0])))
+        k2 = int(math.floor((dec2j - db[0]) * nd / (db[-1] - db[0])))
+        if k2 < 0 or k2 > nd - 1:
+            return 'target-outside-dec-grid:' + cc
+        lo = hi = k2
+        while dec2j - db[lo] < s and lo > 0:
+            lo -= 1
+        while db[hi + 1] - dec2j < s and hi < nd - 1:
+            hi += 1
+        for sl in range(lo, hi + 1):
+            c = racell(sl, cur2)
+            if c < 0 or c > g['nRa'][sl] - 1:
+                return 'target-outside-ra-grid:' + cc     # getbounds raises, assign() drops the point entirely
+        if not (lo <= k1 <= hi):
+            return cc
+        j1 = racell(k1, cur1)
+        rb = g['raBounds'][k1]
+        a, b = float(rb[j1]), float(rb[j1 + 1])
+        top = db[k1] if abs(db[k1]) > abs(db[k1 + 1]) else db[k1 + 1]
+        best = None
+        for sh in ((0.0, 360.0, -360.0) if g['embrace'][k1] else (0.0,)):
+            x = cur2 + sh
+            gap = 0.0 if a <= x <= b else min(abs(x - a), abs(x - b))
+            if best is None or gap < best[0]:
+                best = (gap, sh)
+        if best[0] * math.cos(math.radians(top)) >= s * (1.0 - 1e-12):
+            return 'flat-ra-margin-test'        # (ra - edge)*cosDecMin >= margin although the true arc is shorter
+        if (best[1] < 0 and j1 < g['nRa'][k1] - 1) or (best[1] > 0 and j1 > 0):
+            return 'ra-wrap-one-cell-only:' + cc   # the walk across RA 0/360 stops after one cell (cells narrower than margin)
+        return cc
+    except Exception:      # noqa  (aiming geometry only; never let it mask the violation)
+        return cc
+
+
+
 # ------------------------------------------------------------------ scenes (site alphabets)
 # offsets in lattice units (i along RA scaled by 1/cos(dec0), j along Dec); simplest first
 _OFFS = [(0, 0), (1, 0), (0, 1), (2, 1), (27, -13), (2, 2), (-1, 2), (0, -3)]
